@@ -73,7 +73,7 @@ def golden_array(exe, spec, variant, stats):
             z = [l for l in par if l.startswith('z-parity')]; o = [l for l in par if not l.startswith('z-parity')]
             par = o[:1] + z + o[1:]
         open(a.conf, 'w').write('\n'.join(rest[:1] + par + rest[1:]) + '\n')
-    lim = ['--test-parity-limit=9000'] if spec['splits'] > 1 else []
+    lim = ['--test-parity-limit=%d' % spec.get('limit', 9000)] if spec['splits'] > 1 else []
     problems = []
     tag = '%s (%s)' % (name, 'parity lines reordered' if variant else 'standard config')
     # the Lean decoder reads the golden content exactly as recorded when it was produced
